@@ -122,4 +122,10 @@ func c02Trace(run *vf.Run) {
 	if ok2 {
 		run.Inconclusive("Tx_Trace accepted a log with a falsified field: the trace specification does not bind")
 	}
+	if run.NumViolations() > 0 || len(run.InconclusiveList()) > 0 {
+		return
+	}
+	// code -> spec over arbitrary rule sets: recorded executions of the repository's test profiles, the Core Rule Set and
+	// generated rule sets must be behaviours of Flow.tla (Flow_Trace.tla)
+	FlowTraceStage(run, "profiles", "crs")
 }
